@@ -1,6 +1,7 @@
 import Jp.Lemmas.Bridge
 import Jp.Props.C03
 import Jp.Props.C04
+import Jp.Lemmas.C05Helpers
 /-
   C05 — Resolve is RFC 6901 evaluation: every node is addressable, by reference.
   Model: `resolve` (the `split_front` loop with position/offset). Spec: `walk` over the token list.
@@ -9,11 +10,12 @@ import Jp.Props.C04
 namespace Jp.C05
 open Jp Jp.Spec
 
-def kindOf : ResolveErr → WalkKind
-  | .failedToParseIndex .. => .parse
-  | .outOfBounds .. => .oob
-  | .notFound .. => .notFound
-  | .unreachable .. => .unreachable
+-- def kindOf … : see Jp/Lemmas/C05Helpers.lean
+--   def kindOf : ResolveErr → WalkKind
+--     | .failedToParseIndex .. => .parse
+--     | .outOfBounds .. => .oob
+--     | .notFound .. => .notFound
+--     | .unreachable .. => .unreachable
 
 /-- forget offsets and payloads (those belong to C15): outcome, location, first failing step, kind -/
 def absR : Res ResolveErr (Loc × Val) → Res (Nat × WalkKind) (Loc × Val)
@@ -21,312 +23,18 @@ def absR : Res ResolveErr (Loc × Val) → Res (Nat × WalkKind) (Loc × Val)
   | .err e => .err (e.position, kindOf e)
   | .panic m => .panic m
 
-/-- the token spelling of a location step: a key through `Token::new`, an index in decimal -/
-def spell : Step → Bytes
-  | .key k => (Token.new k).bytes
-  | .idx i => decimal i
+-- def spell … : see Jp/Lemmas/C05Helpers.lean
+-- the token spelling of a location step: a key through `Token::new`, an index in decimal
+--   def spell : Step → Bytes
+--     | .key k => (Token.new k).bytes
+--     | .idx i => decimal i
 
-def PathFits (l : Loc) : Prop := ∀ i, Step.idx i ∈ l → i ≤ usizeMax
+-- def PathFits … : see Jp/Lemmas/C05Helpers.lean
+--   def PathFits (l : Loc) : Prop := ∀ i, Step.idx i ∈ l → i ≤ usizeMax
 
 -- OBLIGATIONS
 -- resolve_eq_walk resolve_returns_node walk_returns_node every_node_addressable pointer_of_node_unique
 -- resolve_no_panic walk_error_kinds
-
-/-! ### helper lemmas -/
-
-theorem forLen_ok {i : Index} {len idx : Nat} (h : i.forLen len = .ok idx) :
-    i = .num idx ∧ idx < len := by
-  cases i with
-  | next => simp [Index.forLen] at h
-  | num k =>
-    simp only [Index.forLen] at h
-    split at h
-    · cases h; exact ⟨rfl, by assumption⟩
-    · cases h
-
-theorem resolveT_walk (ts : List Bytes) (hv : ∀ t ∈ ts, validTok t = true) (v : Val)
-    (o pos : Nat) (loc : Loc) :
-    match walk v ts with
-    | .ok (l, n) => resolveT ts v o pos loc = .ok (loc ++ l, n)
-    | .err (k, kind) =>
-        ∃ e, resolveT ts v o pos loc = .err e ∧ e.position = pos + k ∧ kindOf e = kind
-    | .panic _ => False := by
-  induction ts generalizing v o pos loc with
-  | nil => simp [walk, resolveT]
-  | cons t ts ih =>
-    have ht : validTok t = true := hv t (by simp)
-    have ih' := ih (fun u hu => hv u (by simp [hu]))
-    have hd : (Token.decoded t).bytes = dec t := toString_eq_dec t ht
-    cases v with
-    | scalar a => simp [walk, resolveT, ResolveErr.position, kindOf]
-    | obj kvs =>
-      simp only [walk, resolveT, hd]
-      cases hl : lookup (dec t) kvs with
-      | none => simp [ResolveErr.position, kindOf]
-      | some c =>
-        simp only []
-        have := ih' c (o + (1 + t.length)) (pos + 1) (loc ++ [.key (dec t)])
-        cases hw : walk c ts with
-        | ok r =>
-          obtain ⟨l, n⟩ := r
-          simp only [hw] at this ⊢
-          simpa using this
-        | err r =>
-          obtain ⟨k, kind⟩ := r
-          simp only [hw] at this ⊢
-          obtain ⟨e, h1, h2, h3⟩ := this
-          exact ⟨e, h1, by omega, h3⟩
-        | panic m => simp [hw] at this
-    | arr xs =>
-      simp only [walk, resolveT]
-      have hp := toIndex_pidx t
-      cases hi : Token.toIndex t with
-      | err e => 
-        simp only [hi] at hp
-        simp [hp, ResolveErr.position, kindOf]
-      | panic m => simp [hi] at hp
-      | ok i =>
-        cases i with
-        | next =>
-          simp only [hi] at hp
-          simp [hp, Index.forLen, ResolveErr.position, kindOf]
-        | num k =>
-          simp only [hi] at hp
-          simp only [hp, Index.forLen]
-          by_cases hk : k < xs.length
-          · simp only [hk, if_true, List.getElem?_eq_getElem hk]
-            have := ih' xs[k] (o + (1 + t.length)) (pos + 1) (loc ++ [.idx k])
-            cases hw : walk xs[k] ts with
-            | ok r =>
-              obtain ⟨l, n⟩ := r
-              simp only [hw] at this ⊢
-              simpa using this
-            | err r =>
-              obtain ⟨k', kind⟩ := r
-              simp only [hw] at this ⊢
-              obtain ⟨e, h1, h2, h3⟩ := this
-              exact ⟨e, h1, by omega, h3⟩
-            | panic m => simp [hw] at this
-          · simp [hk, ResolveErr.position, kindOf]
-
-theorem resolve_eq_resolveT {p : Bytes} (hp : validPtr p = true) (D : Val) :
-    ∃ ts, tokens p = ts ∧ (∀ t ∈ ts, validTok t = true) ∧ resolve D p = resolveT ts D 0 0 [] := by
-  obtain ⟨ts, rfl, htok, hns, hv⟩ := valid_decomp hp
-  exact ⟨ts, htok, hv, by unfold resolve; exact resolveLoop_ofToks ts hns D 0 0 []⟩
-
-theorem resolveT_ok_walk {ts : List Bytes} (hv : ∀ t ∈ ts, validTok t = true) {D : Val}
-    {l : Loc} {n : Val} (h : resolveT ts D 0 0 [] = .ok (l, n)) : walk D ts = .ok (l, n) := by
-  have := resolveT_walk ts hv D 0 0 []
-  cases hw : walk D ts with
-  | ok r =>
-    obtain ⟨l', n'⟩ := r
-    simp only [hw] at this
-    rw [h] at this
-    simpa using this.symm
-  | err r =>
-    obtain ⟨k, kind⟩ := r
-    simp only [hw] at this
-    obtain ⟨e, h1, _⟩ := this
-    rw [h] at h1; cases h1
-  | panic m => simp [hw] at this
-
-theorem pidx_num_le {t : Bytes} {i : Nat} (h : pidx t = .num i) : i ≤ usizeMax := by
-  unfold pidx at h
-  split at h
-  · cases h
-  · split at h
-    · rename_i hv
-      simp at h
-      subst h
-      simp only [validNum, Bool.or_eq_true, beq_iff_eq, Bool.and_eq_true, decide_eq_true_eq] at hv
-      rcases hv with rfl | ⟨_, hm⟩
-      · decide
-      · exact hm
-    · cases h
-
-theorem spell_valid (s : Step) : validTok (spell s) = true := by
-  cases s with
-  | key k => simp only [spell, Jp.C03.new_encoded]; exact Jp.C03.enc_valid k
-  | idx i => exact (Jp.C04.decimal_validTok i).1
-
-theorem walk_spell (D : Val) (path : Loc) (n : Val) (hfit : PathFits path)
-    (h : D.at path = some n) : walk D (path.map spell) = .ok (path, n) := by
-  induction path generalizing D with
-  | nil => simp [Val.at] at h; simp [walk, h]
-  | cons s path ih =>
-    have hfit' : PathFits path := fun i hi => hfit i (by simp [hi])
-    cases s with
-    | key k =>
-      cases D with
-      | scalar a => simp [Val.at] at h
-      | arr xs => simp [Val.at] at h
-      | obj kvs =>
-        simp only [Val.at] at h
-        cases hl : lookup k kvs with
-        | none => simp [hl] at h
-        | some c =>
-          simp only [hl] at h
-          have := ih c hfit' h
-          simp [walk, spell, Jp.C03.new_encoded, Jp.C03.dec_enc, hl, this]
-    | idx i =>
-      have hi : i ≤ usizeMax := hfit i (by simp)
-      cases D with
-      | scalar a => simp [Val.at] at h
-      | obj kvs => simp [Val.at] at h
-      | arr xs =>
-        simp only [Val.at] at h
-        cases hl : xs[i]? with
-        | none => simp [hl] at h
-        | some c =>
-          simp only [hl] at h
-          have := ih c hfit' h
-          simp [walk, spell, pidx_decimal i hi, hl, this]
-
-theorem walk_unique (D : Val) (ts : List Bytes) (hv : ∀ t ∈ ts, validTok t = true) (l : Loc) (n : Val)
-    (h : walk D ts = .ok (l, n)) : ts = l.map spell := by
-  induction ts generalizing D l with
-  | nil => simp [walk] at h; simp [← h.1]
-  | cons t ts ih =>
-    have ht : validTok t = true := hv t (by simp)
-    have ih' := fun D' => ih D' (fun u hu => hv u (by simp [hu]))
-    cases D with
-    | scalar a => simp [walk] at h
-    | obj kvs =>
-      simp only [walk] at h
-      cases hl : lookup (dec t) kvs with
-      | none => simp [hl] at h
-      | some c =>
-        simp only [hl] at h
-        cases hw : walk c ts with
-        | ok r =>
-          obtain ⟨l', n'⟩ := r
-          simp only [hw, Res.ok.injEq, Prod.mk.injEq] at h
-          obtain ⟨rfl, rfl⟩ := h
-          simp [spell, Jp.C03.new_encoded, Jp.C03.enc_dec t ht, ← ih' c l' hw]
-        | err r => obtain ⟨k, e⟩ := r; simp [hw] at h
-        | panic m => simp [hw] at h
-    | arr xs =>
-      simp only [walk] at h
-      cases hp : pidx t with
-      | bad => simp [hp] at h
-      | next => simp [hp] at h
-      | num i =>
-        simp only [hp] at h
-        cases hl : xs[i]? with
-        | none => simp [hl] at h
-        | some c =>
-          simp only [hl] at h
-          cases hw : walk c ts with
-          | ok r =>
-            obtain ⟨l', n'⟩ := r
-            simp only [hw, Res.ok.injEq, Prod.mk.injEq] at h
-            obtain ⟨rfl, rfl⟩ := h
-            have : t = decimal i := pidx_num_inj t (decimal i) i hp (pidx_decimal i (pidx_num_le hp))
-            simp [spell, ← this, ← ih' c l' hw]
-          | err r => obtain ⟨k, e⟩ := r; simp [hw] at h
-          | panic m => simp [hw] at h
-
-theorem walk_append (D : Val) (ts us : List Bytes) (l : Loc) (n : Val)
-    (h : walk D ts = .ok (l, n)) :
-    walk D (ts ++ us) = match walk n us with
-      | .ok (l', n') => .ok (l ++ l', n')
-      | .err (k, e) => .err (ts.length + k, e)
-      | .panic m => .panic m := by
-  induction ts generalizing D l with
-  | nil =>
-    simp [walk] at h
-    obtain ⟨rfl, rfl⟩ := h
-    cases hw : walk D us with
-    | ok r => obtain ⟨l', n'⟩ := r; simp [hw]
-    | err r => obtain ⟨k, e⟩ := r; simp [hw]
-    | panic m => simp [hw]
-  | cons t ts ih =>
-    cases D with
-    | scalar a => simp [walk] at h
-    | obj kvs =>
-      simp only [walk] at h
-      cases hl : lookup (dec t) kvs with
-      | none => simp [hl] at h
-      | some c =>
-        simp only [hl] at h
-        cases hw : walk c ts with
-        | ok r =>
-          obtain ⟨l', n'⟩ := r
-          simp only [hw, Res.ok.injEq, Prod.mk.injEq] at h
-          obtain ⟨rfl, rfl⟩ := h
-          have := ih c l' hw
-          simp only [List.cons_append, walk, hl, this]
-          cases hw2 : walk n' us with
-          | ok r => obtain ⟨l2, n2⟩ := r; simp
-          | err r => obtain ⟨k, e⟩ := r; simp; omega
-          | panic m => simp
-        | err r => obtain ⟨k, e⟩ := r; simp [hw] at h
-        | panic m => simp [hw] at h
-    | arr xs =>
-      simp only [walk] at h
-      cases hp : pidx t with
-      | bad => simp [hp] at h
-      | next => simp [hp] at h
-      | num i =>
-        simp only [hp] at h
-        cases hl : xs[i]? with
-        | none => simp [hl] at h
-        | some c =>
-          simp only [hl] at h
-          cases hw : walk c ts with
-          | ok r =>
-            obtain ⟨l', n'⟩ := r
-            simp only [hw, Res.ok.injEq, Prod.mk.injEq] at h
-            obtain ⟨rfl, rfl⟩ := h
-            have := ih c l' hw
-            simp only [List.cons_append, walk, hp, hl, this]
-            cases hw2 : walk n' us with
-            | ok r => obtain ⟨l2, n2⟩ := r; simp
-            | err r => obtain ⟨k, e⟩ := r; simp; omega
-            | panic m => simp
-          | err r => obtain ⟨k, e⟩ := r; simp [hw] at h
-          | panic m => simp [hw] at h
-
-theorem walk_at (D : Val) (ts : List Bytes) (l : Loc) (n : Val)
-    (h : walk D ts = .ok (l, n)) : D.at l = some n := by
-  induction ts generalizing D l with
-  | nil => simp [walk] at h; obtain ⟨rfl, rfl⟩ := h; simp [Val.at]
-  | cons t ts ih =>
-    cases D with
-    | scalar a => simp [walk] at h
-    | obj kvs =>
-      simp only [walk] at h
-      cases hl : lookup (dec t) kvs with
-      | none => simp [hl] at h
-      | some c =>
-        simp only [hl] at h
-        cases hw : walk c ts with
-        | ok r =>
-          obtain ⟨l', n'⟩ := r
-          simp only [hw, Res.ok.injEq, Prod.mk.injEq] at h
-          obtain ⟨rfl, rfl⟩ := h
-          simp [Val.at, hl, ih c l' hw]
-        | err r => obtain ⟨k, e⟩ := r; simp [hw] at h
-        | panic m => simp [hw] at h
-    | arr xs =>
-      simp only [walk] at h
-      cases hp : pidx t with
-      | bad => simp [hp] at h
-      | next => simp [hp] at h
-      | num i =>
-        simp only [hp] at h
-        cases hl : xs[i]? with
-        | none => simp [hl] at h
-        | some c =>
-          simp only [hl] at h
-          cases hw : walk c ts with
-          | ok r =>
-            obtain ⟨l', n'⟩ := r
-            simp only [hw, Res.ok.injEq, Prod.mk.injEq] at h
-            obtain ⟨rfl, rfl⟩ := h
-            simp [Val.at, hl, ih c l' hw]
-          | err r => obtain ⟨k, e⟩ := r; simp [hw] at h
-          | panic m => simp [hw] at h
 
 /-- success, location and the first failing step with its kind are those of RFC 6901 evaluation -/
 theorem resolve_eq_walk (D : Val) (p : Bytes) (hp : validPtr p = true) :
